@@ -38,12 +38,14 @@ at `LatestSeqNum` inside the critical section of the level swap; `endSeqNum` is 
 the segment markers (D27); `CheckpointList.Save` collects the document, writes the file and destroys the pending
 WALs in one critical section of the list mutex, so overlapping saves (the asynchronous halves of consecutive
 checkpoints, a retention update from the job) serialise and the model's `saveDoc` / `retain` are atomic steps;
-`RetainOnly` keeps the listed ids and everything newer than them. -/
+`RetainOnly` keeps the listed ids and everything newer than them; `Add`, `RetainOnly` and `IncludesTable` touch the list
+only under the same mutex. -/
 theorem code_shape :
     Facts.c08CaptureUnderLock = 1 ∧ Facts.c08SaveWalThenDoc = 1 ∧ Facts.c08AfterIsLatest = 1 ∧
     Facts.c08StartSeqFromLevels = 1 ∧ Facts.c08StartSkipsTableIDs = 1 ∧ Facts.c08StartNextWALID = 1 ∧
     Facts.c08FlushTruncates = 1 ∧ Facts.c08EndSeqIsMax = 1 ∧ Facts.c08RotateKeepsMarks = 1 ∧
-    Facts.c08SaveUnderListLock = 1 ∧ Facts.c08RetainKeepsNewer = 1 := by
+    Facts.c08SaveUnderListLock = 1 ∧ Facts.c08RetainKeepsNewer = 1 ∧
+    Facts.c08AddUnderListLock = 1 ∧ Facts.c08RetainUnderListLock = 1 ∧ Facts.c08IncludesUnderListLock = 1 := by
   decide
 
 /-- the memory/WAL invariant `Inv` (see `Proofs/CkptInv.lean`) is preserved by every action, `open` included -/
@@ -130,8 +132,9 @@ PARTIAL (defect D50, open): "still retained" (`hret`) means *listed by the runni
 "every checkpoint whose handle the user holds and has not given up by a retention update restores" — is false for the
 code as it is: an instance reopened from checkpoint N lists only N (`LoadCheckpointList` takes one entry of the
 document), and its next save rewrites the `checkpoints` document without the older checkpoints the user still
-retains (`d50_counterexample`). Excluded exactly: handles older than a checkpoint the database has been reopened
-from since (`SpecSt.lost`); see `user_retained_restores_partial` for the statement in terms of the user's handles. -/
+retains (`d50_counterexample`). Excluded exactly: the handles the running instance does not list (`SpecSt.unlisted`: every other
+handle the user held when the database was reopened from one of them); see `user_retained_restores_partial` for the
+statement in terms of the user's handles and for which of them really fail (D50) or restore wrong contents (D67). -/
 theorem checkpoint_restore_partial (as₁ as₂ : List Act) (id : Nat) (rots : List Nat) (s₁ s₂ s : State)
     (h1 : run {} as₁ = some s₁) (hc : step s₁ (.checkpoint id) = some s₂) (h2 : run s₂ as₂ = some s)
     (hret : capture s₁ id ∈ s.ckpts) (hdone : id ∈ s.done) :
@@ -143,9 +146,9 @@ theorem checkpoint_restore_partial (as₁ as₂ : List Act) (id : Nat) (rots : L
   have hstep : step s (.open id rots) = some r := by simp only [step, hload]; exact hr
   exact ⟨r, hstep, hir, finv_open s r id rots hstep, hget⟩
 
-/-- **Restore is stable**, spelled out for a crash: whatever happened after the checkpoint, and after the process
+/-- PARTIAL as `checkpoint_restore_partial` (`hret`: listed by the running instance). **Restore is stable**, spelled out for a crash: whatever happened after the checkpoint, and after the process
 is gone, the files still restore the state of the `Checkpoint` call. -/
-theorem restore_stable (as₁ as₂ : List Act) (id : Nat) (rots : List Nat) (s₁ s₂ s sc : State)
+theorem restore_stable_partial (as₁ as₂ : List Act) (id : Nat) (rots : List Nat) (s₁ s₂ s sc : State)
     (h1 : run {} as₁ = some s₁) (hc : step s₁ (.checkpoint id) = some s₂) (h2 : run s₂ as₂ = some s)
     (hcr : step s .crash = some sc) (hret : capture s₁ id ∈ s.ckpts) (hdone : id ∈ s.done) :
     ∃ r, step sc (.open id rots) = some r ∧ ∀ k, answer (Lsm.get r.db k) = answer (Lsm.get s₁.db k) := by
@@ -247,20 +250,24 @@ instant `Checkpoint` was called". Instances are only opened from completed handl
 (`guardOk`). The C07 refinement invariant (`Lsm.Inv`, with the compaction soundness proof of C18) is carried through
 every action and re-established for a restored instance. -/
 
-/-- **Every point read follows the specification along every history, restores and chains of restores included**:
+/-- PARTIAL (D50/D67): `runSpec` only contains restores from checkpoints the running instance lists and whose handle was
+returned (`guardOk` = `retainedDone`); a restore from any other handle the user holds (`SpecSt.unlisted`) is not a
+history of `runSpec`, although the code accepts it.
+
+**Every point read follows the specification along every such history, restores and chains of restores included**:
 right after `open id` the database contains exactly the writes made before the `Checkpoint(id)` call (none missing,
 no later one visible), afterwards those plus the writes of the restored instance, whatever flushes, compactions,
 checkpoints, retention updates and crashes happen in between. -/
-theorem restore_is_spec (as : List Act) (s : State) (sp : SpecSt) (h : runSpec {} {} as = some (s, sp))
+theorem restore_is_spec_partial (as : List Act) (s : State) (sp : SpecSt) (h : runSpec {} {} as = some (s, sp))
     (hrep : s.replaying = []) (k : Bytes) :
     answer (Lsm.get s.db k) = answer (Lsm.Spec.get sp.m k) := by
   obtain ⟨mL, hL, _, hA⟩ := (sinv_run as {} s {} sp sinv_init h).lsm
   rw [hrep] at hA
   rw [get_eq_spec hL k]; exact hA k
 
-/-- **Every prefix scan follows the specification** in the same sense: ascending keys, each live key of the expected
+/-- PARTIAL as `restore_is_spec_partial` (histories of `runSpec`). **Every prefix scan follows the specification** in the same sense: ascending keys, each live key of the expected
 map with the prefix exactly once with its expected value, nothing else. -/
-theorem restore_scan_is_spec (as : List Act) (s : State) (sp : SpecSt) (h : runSpec {} {} as = some (s, sp))
+theorem restore_scan_is_spec_partial (as : List Act) (s : State) (sp : SpecSt) (h : runSpec {} {} as = some (s, sp))
     (hrep : s.replaying = []) (p : Bytes) :
     ((Lsm.scan s.db p).map (fun e => (e.key, e.val))).Pairwise (fun a b => Bytes.lt a.1 b.1 = true) ∧
     ∀ k v, (k, v) ∈ (Lsm.scan s.db p).map (fun e => (e.key, e.val)) ↔
@@ -292,19 +299,19 @@ theorem restore_scan_is_spec (as : List Act) (s : State) (sp : SpecSt) (h : runS
       have hv : e.val = v := by simpa [answer, hd] using h1
       exact ⟨e, (hmem e).mpr ⟨by rw [hk]; exact hg, hd, by rw [hk]; exact h2⟩, hk, hv⟩
 
-/-- **The replay loop of `DB.Start` is not atomic**: `openBegin id` followed by one `replayOne` per WAL record, with
+/-- PARTIAL as `restore_is_spec_partial` (histories of `runSpec`). **The replay loop of `DB.Start` is not atomic**: `openBegin id` followed by one `replayOne` per WAL record, with
 flush begins / commits, compaction commits and written-but-uncommitted table files (`orphan`) at any point in between
 (the tasks the replay itself starts), reaches — once nothing is left to replay — a state whose every point read equals
-the map recorded at `Checkpoint(id)`: this is `restore_is_spec` for histories containing these actions, spelled out. A
+the map recorded at `Checkpoint(id)`: this is `restore_is_spec_partial` for histories containing these actions, spelled out. A
 crash in the middle of the replay leaves the files of the checkpoint intact (`checkpoint_restore_partial` quantifies
 over such histories), so the restore can simply be repeated. -/
-theorem interleaved_replay_is_spec (as bg : List Act) (id : Nat) (s₀ s : State) (sp₀ sp : SpecSt)
+theorem interleaved_replay_is_spec_partial (as bg : List Act) (id : Nat) (s₀ s : State) (sp₀ sp : SpecSt)
     (h0 : runSpec {} {} as = some (s₀, sp₀))
     (h : runSpec s₀ sp₀ (.openBegin id :: bg) = some (s, sp)) (hrep : s.replaying = [])
     (k : Bytes) :
     answer (Lsm.get s.db k) = answer (Lsm.Spec.get sp.m k) := by
   have hall : runSpec {} {} (as ++ (.openBegin id :: bg)) = some (s, sp) := by rw [runSpec_append, h0]; exact h
-  exact restore_is_spec _ s sp hall hrep k
+  exact restore_is_spec_partial _ s sp hall hrep k
 
 /-- the replay can always make its next step: nothing that happens in between disables it -/
 theorem replay_never_stuck (as : List Act) (s : State) (h : run {} as = some s) (halive : s.alive = true)
@@ -313,9 +320,9 @@ theorem replay_never_stuck (as : List Act) (s : State) (h : run {} as = some s) 
   obtain ⟨s1, h1⟩ := write_enabled (inv_run as {} s init_inv h) r.del r.key r.val rot
   exact ⟨{ s1 with replaying := rs }, by simp [step, halive, blocked, hr, h1], rfl⟩
 
-/-- The statement of the property in one line: history `as₁`, `Checkpoint(id)`, anything afterwards (`as₂`, without
+/-- PARTIAL as `restore_is_spec_partial` (histories of `runSpec`). The statement of the property in one line: history `as₁`, `Checkpoint(id)`, anything afterwards (`as₂`, without
 reusing the id), restore from `id`: the expected map of the restored instance is the expected map at the call. -/
-theorem checkpoint_restore_spec (as₁ as₂ : List Act) (id : Nat) (rots : List Nat) (s₁ r : State) (sp₁ spr : SpecSt)
+theorem checkpoint_restore_spec_partial (as₁ as₂ : List Act) (id : Nat) (rots : List Nat) (s₁ r : State) (sp₁ spr : SpecSt)
     (h1 : runSpec {} {} as₁ = some (s₁, sp₁))
     (h : runSpec {} {} (as₁ ++ (.checkpoint id :: as₂ ++ [.open id rots])) = some (r, spr))
     (hno : ∀ a ∈ as₂, a = Act.checkpoint id → False) :
@@ -350,7 +357,7 @@ theorem checkpoint_restore_spec (as₁ as₂ : List Act) (id : Nat) (rots : List
               · rw [← h.1]; exact open_replaying_nil hst3
           · cases h
     · cases h
-  exact ⟨hm.1, fun k => by rw [← hm.1]; exact restore_is_spec _ r spr h hm.2 k⟩
+  exact ⟨hm.1, fun k => by rw [← hm.1]; exact restore_is_spec_partial _ r spr h hm.2 k⟩
 
 /-! ## the user's handles (defect D50)
 
@@ -359,10 +366,20 @@ retention update that does not keep the id, by a new `Checkpoint` call with the 
 checkpoint (which abandons the later ones); they survive restarts. `SpecSt.lost` are those among them that were older
 than a checkpoint the database has been reopened from. -/
 
-/-- **Every handle the user holds restores the map at its `Checkpoint` call — except the `lost` ones (D50).**
-FULL STATEMENT (false for the code as it is, see `d50_counterexample`): the same without `hl`. -/
+/-- **Every handle the user holds that the running instance lists restores the map at its `Checkpoint` call.**
+FULL STATEMENT (false for the code as it is): the same for every `id ∈ sp.handles`, without `hl`. EXCLUDED EXACTLY: the
+handles in `sp.unlisted` — every other handle the user held when the database was last reopened from one of them
+(`LoadCheckpointList` loads one entry of the document). Among those the code really fails for
+* `sp.lost` (D50, `d50_counterexample`): once the reopened instance has written the `checkpoints` document, their entries
+  are gone and `Open` panics;
+* `sp.over` (D67, `d67_counterexample`): handles NEWER than the opened checkpoint — the reopened instance numbers its table
+  and WAL files above the opened checkpoint's only and overwrites theirs: `Open` succeeds with wrong contents.
+Unlisted handles outside these two situations (before the reopened instance's first document write; older handles whose
+files are untouched; reopens into a fresh directory) do restore in the code and are compared by the harness (`peek`), but
+are not covered by a theorem. -/
 theorem user_retained_restores_partial (as : List Act) (s : State) (sp : SpecSt)
-    (h : runSpec {} {} as = some (s, sp)) (id : Nat) (rots : List Nat) (hid : id ∈ sp.handles) (hl : id ∉ sp.lost) :
+    (h : runSpec {} {} as = some (s, sp)) (id : Nat) (rots : List Nat) (hid : id ∈ sp.handles)
+    (hl : id ∉ sp.unlisted) :
     ∃ r, step s (.open id rots) = some r ∧
       ∀ k, answer (Lsm.get r.db k) = answer (Lsm.Spec.get (specAt sp.saved id) k) := by
   have hu := uinv_run as {} s {} sp (by intro i hi; cases hi) h
@@ -379,12 +396,33 @@ def histD50 : List Act :=
 restart, before the reopened instance saved anything, handle 1 still restored. -/
 theorem d50_counterexample :
     (do let (s, sp) ← runSpec {} {} histD50
-        pure (sp.handles, sp.lost, (step s (.open 1 [])).isSome, (step s (.open 2 [])).isSome,
-              (step s (.open 3 [])).isSome)) = some ([3, 2, 1], [1], false, true, true) ∧
+        pure (sp.handles, sp.unlisted, sp.lost, (step s (.open 1 [])).isSome, (step s (.open 2 [])).isSome,
+              (step s (.open 3 [])).isSome)) = some ([3, 2, 1], [1], [1], false, true, true) ∧
     (do let (s, sp) ← runSpec {} {} (histD50.take 12)
         let r ← step s (.open 1 [])
-        pure (sp.handles, answer (Lsm.get r.db [97]), answer (Lsm.get r.db [98]))) = some ([2, 1], some [1], none) := by
+        pure (sp.handles, sp.unlisted, sp.lost, answer (Lsm.get r.db [97]), answer (Lsm.get r.db [98])))
+      = some ([2, 1], [1], [], some [1], none) := by
   constructor <;> rfl
+
+/-- the D67 history: checkpoint 1 with nothing flushed, a flush, checkpoint 2 (references table 0), both retained;
+restart from the OLDER checkpoint 1 in the same directory, a write and a flush -/
+def histD67 : List Act :=
+  [.write false [97] [1] false, .checkpoint 1, .saveWal 1, .saveDoc 1,
+   .write false [98] [2] true, .flushBegin 1, .flushCommit, .checkpoint 2, .saveWal 2, .saveDoc 2,
+   .retain [1, 2], .saveList, .crash, .open 1 [],
+   .write false [99] [3] true, .flushBegin 1, .flushCommit]
+
+/-- **D67 (open).** After that history the user still holds handle 2 (`over`: newer than the checkpoint the database
+was reopened from). The reopened instance numbered its first table 0 — above the tables of checkpoint 1, of which
+there are none — and overwrote the table of checkpoint 2: `open 2` succeeds and returns the write made after the
+restart (`c`) instead of the one made before checkpoint 2 (`b`), while the expected map has `b` and not `c`. -/
+theorem d67_counterexample :
+    (do let (s, sp) ← runSpec {} {} histD67
+        let r ← step s (.open 2 [])
+        pure (sp.handles, sp.over, sp.lost, answer (Lsm.get r.db [98]), answer (Lsm.get r.db [99]),
+              answer (Lsm.Spec.get (specAt sp.saved 2) [98]), answer (Lsm.Spec.get (specAt sp.saved 2) [99])))
+      = some ([2, 1], [2], [], none, some [3], some [2], none) := by
+  rfl
 
 /-! ## regression witness of D28 and non-vacuity -/
 
